@@ -61,7 +61,7 @@ U("c05_export_restarts_prng", ["C05"], "h_scratch_restarts", ["C05/reseed.c"], [
   defines=["-DUNIT_SCRATCH"], cbmc_flags=["--unwind", "2", "--unwinding-assertions"],
   functions=["scratch_pad_new"], callees={"ran_start": "logging stub", "stack_new": "body", "store_*": "not reached (engine stacks empty)"},
   nobody_ok=["rand"], assumptions=["engine stacks are empty in this unit (the restart is the first statement of scratch_pad_new and does not depend on them)", NOFAIL,
-               "ran_start(seed) overwrites the whole generator state from the seed alone (rng.c, Knuth's ran_array; by inspection -- its symbolic execution ran out of memory)"])
+               "ran_start(314159) leaves a state independent of the prior one: by contract, proved by unit c05_ran_start_determines_state"])
 
 # ---- ran_start determinism as a 2-safety obligation over two independent copies of rng.c
 _C05_REN = ["ran_x", "ran_array", "ran_arr_buf", "ran_arr_dummy", "ran_arr_started", "ran_arr_ptr", "ran_start", "ran_arr_cycle", "ran_num_next"]
